@@ -399,6 +399,9 @@ class MemoryFieldArray:
         :param value: value to set on index
         :return: None
         """
+        if self._dataset is None:
+            # nothing has been written yet: behave like the empty array that __getitem__ and __len__ report
+            self._dataset = np.zeros(0, dtype=np.asarray(value).dtype)
         self._dataset[key] = value
 
     def clear(self):
